@@ -27,6 +27,8 @@ def main():
             v = drv.replay(r2)
             if want_sig:
                 v = [x for x in v if (x.get("sig") or x.get("rule") or "").split(":")[0] == want_sig]
+            if "--unclassified" in sys.argv:
+                v = [x for x in v if not x.get("mech")]
             return bool(v)
         except Exception:
             return False
